@@ -86,7 +86,7 @@ type R struct {
 	V   V      `json:"v"`
 }
 
-func okR(v V) R   { return R{Res: "ok", V: v.norm()} }
+func okR(v V) R       { return R{Res: "ok", V: v.norm()} }
 func resR(s string) R { return R{Res: s, V: noV()} }
 
 // Universe maps tokens to concrete values and back. Everything inside a token class that the
@@ -524,7 +524,25 @@ func flipFirstLetter(s string) string {
 	return s
 }
 
+// garbage is seeded printable text that no attribute grammar accepts: it starts with '!' and
+// contains no comma (so it stays one list element).
+func (u *Universe) garbage(label string) string {
+	r := newDet("garbage-"+label, u.Seed)
+	n := 1 + int(r.bytes(1)[0])%60
+	b := r.bytes(n)
+	for i := range b {
+		b[i] = 0x21 + b[i]%0x5e
+		if b[i] == ',' {
+			b[i] = ';'
+		}
+	}
+	return "!" + string(b)
+}
+
 func (u *Universe) renderNum(f, t string) string {
+	if f == "garbage" {
+		return u.garbage("num" + t)
+	}
 	n := strconv.FormatUint(u.U64(t), 10)
 	switch f {
 	case "canon":
@@ -562,6 +580,9 @@ func (u *Universe) renderAddr(f, t string) string {
 	if f == "empty" {
 		return ""
 	}
+	if f == "garbage" {
+		return u.garbage("addr" + t)
+	}
 	h := u.Addr(t).Hex()
 	switch f {
 	case "canon":
@@ -594,6 +615,9 @@ func (u *Universe) renderAddr(f, t string) string {
 func (u *Universe) renderHex(kind, f, t string) string {
 	if f == "empty" {
 		return ""
+	}
+	if f == "garbage" {
+		return u.garbage("hex" + t)
 	}
 	var b []byte
 	if kind == "bigs" {
@@ -634,6 +658,8 @@ func (u *Universe) renderGammas(f string, es []El) string {
 	}
 	h := hex.EncodeToString(raw)
 	switch f {
+	case "garbage":
+		return u.garbage("gammas")
 	case "canon":
 		return h
 	case "upper":
@@ -661,6 +687,9 @@ const b64url = "ABCDEFGHIJKLMNOPQRSTUVWXYZabcdefghijklmnopqrstuvwxyz0123456789-_
 func (u *Universe) renderKey(f, t string) string {
 	if f == "empty" {
 		return ""
+	}
+	if f == "garbage" {
+		return u.garbage("key" + t)
 	}
 	k, ok := u.key[t]
 	if !ok {
